@@ -6,11 +6,14 @@ import (
 	"crypto/sha256"
 	"encoding/hex"
 	"fmt"
+	"os"
 	"sort"
 	"strings"
 	"sync"
 	"testing"
 	"time"
+
+	ds "github.com/ipfs/go-datastore"
 
 	"github.com/evstack/ev-node/pkg/store"
 	"github.com/evstack/ev-node/types"
@@ -26,6 +29,10 @@ import (
 // argument always equals header.Signature, plus height/state/metadata writes and crashes) and "relations" (saves and
 // resaves whose arguments are spelled out as shapes, so that every relation between header.Signature, the signature
 // argument, header.DataHash and the data — equal, different, empty — occurs in every order on one height and across two).
+// A third search, "values", is about the VALUE written by the single-record writes: metadata values {X, Y, empty slice,
+// nil} on all the node's key shapes, states {all fields zero, full, full, genesis-like}, height 0 and 1, blocks at
+// height 0 and 1 that are full or made of empty parts only; "values-badger" replays the crash-free part of that
+// alphabet on the real on-disk badger datastore (fidelity of the double for empty values, close + reopen).
 
 var signer = world.NewFixedSigner("c14")
 
@@ -174,13 +181,29 @@ func (a action) String() string {
 	case "state":
 		return fmt.Sprintf("updateState(%d)", a.v)
 	case "meta":
-		return fmt.Sprintf("setMeta(%s,%x)", a.key, a.val)
+		return fmt.Sprintf("setMeta(%s,%s)", a.key, valName(a.val))
 	case "crashmeta":
-		return fmt.Sprintf("setMeta(%s,%x)+crash", a.key, a.val)
+		return fmt.Sprintf("setMeta(%s,%s)+crash", a.key, valName(a.val))
 	case "crashstate":
 		return fmt.Sprintf("updateState(%d)+crash", a.v)
 	}
 	return a.kind
+}
+
+// metaVals is the value dimension of a metadata write: two non-empty values (8 bytes, like the node's height
+// watermarks), the empty slice (what the block manager persists under LastBatchDataKey for an empty batch list) and nil.
+func metaVals() [][]byte {
+	return [][]byte{{1, 0, 0, 0, 0, 0, 0, 0}, {2, 0, 0, 0, 0, 0, 0, 0}, {}, nil}
+}
+
+func valName(v []byte) string {
+	switch {
+	case v == nil:
+		return "nil"
+	case len(v) == 0:
+		return "empty"
+	}
+	return fmt.Sprintf("%x", v)
 }
 
 func alphabet(maxH uint64, metaKeys []string) []action {
@@ -197,8 +220,8 @@ func alphabet(maxH uint64, metaKeys []string) []action {
 		as = append(as, action{kind: "state", v: v})
 	}
 	for _, k := range metaKeys {
-		for v := 1; v <= 2; v++ {
-			as = append(as, action{kind: "meta", key: k, val: []byte{byte(v), 0, 0, 0, 0, 0, 0, 0}})
+		for _, v := range metaVals() {
+			as = append(as, action{kind: "meta", key: k, val: v})
 		}
 	}
 	as = append(as, action{kind: "reopen"})
@@ -210,7 +233,55 @@ func alphabet(maxH uint64, metaKeys []string) []action {
 		}
 	}
 	as = append(as, action{kind: "crashmeta", key: metaKeys[0], val: []byte{7, 0, 0, 0, 0, 0, 0, 0}})
+	as = append(as, action{kind: "crashmeta", key: metaKeys[0], val: []byte{}})
 	as = append(as, action{kind: "crashstate", v: 2})
+	return as
+}
+
+// the two block shapes of the values search: everything set, and every part that can be empty is empty
+var (
+	shapeFull  = shape{0, 1, 1, 1} // header A, header.Signature = argument = P, txs A with metadata
+	shapeEmpty = shape{2, 0, 0, 3} // no-transactions header, no signatures, data that marshals to the empty value
+)
+
+// valuesAlphabet: the single-record writes with their VALUE spelled out — metadata on every key in metaKeys ×
+// {X, Y, empty slice, nil}; state ∈ {all fields zero, full 1, full 2, genesis-like (only chain id and initial height)};
+// set height 0 and 1; blocks at height 0 and 1 in the full and the all-empty shape; reopen; and (crash = true) a crash
+// before the durable write of: each of the four values under crashKey, the zero and the genesis-like state, the two
+// block shapes at height 0 (k < 2).
+func valuesAlphabet(metaKeys []string, crashKey string, crash bool) []action {
+	var as []action
+	for _, k := range metaKeys {
+		for _, v := range metaVals() {
+			as = append(as, action{kind: "meta", key: k, val: v})
+		}
+	}
+	for v := 0; v <= 3; v++ {
+		as = append(as, action{kind: "state", v: v})
+	}
+	for h := uint64(0); h <= 1; h++ {
+		as = append(as, action{kind: "height", h: h})
+	}
+	for h := uint64(0); h <= 1; h++ {
+		for _, sh := range []shape{shapeFull, shapeEmpty} {
+			sh := sh
+			as = append(as, action{kind: "save", h: h, sh: &sh})
+		}
+	}
+	as = append(as, action{kind: "reopen"})
+	if !crash {
+		return as
+	}
+	for _, v := range metaVals() {
+		as = append(as, action{kind: "crashmeta", key: crashKey, val: v})
+	}
+	as = append(as, action{kind: "crashstate", v: 0}, action{kind: "crashstate", v: 3})
+	for _, sh := range []shape{shapeFull, shapeEmpty} {
+		for k := 0; k < 2; k++ {
+			sh := sh
+			as = append(as, action{kind: "crashsave", h: 0, sh: &sh, k: k})
+		}
+	}
 	return as
 }
 
@@ -280,6 +351,7 @@ func relAlphabet(full, axis, crash []uint64, crashAxisOnly bool) []action {
 func tagsOf(name string, acts []action, hist []int) []string {
 	set := map[string]bool{"search:" + name: true}
 	saves := map[uint64]int{}
+	metaLen := map[string]int{} // length of the last value written per metadata key
 	for _, ai := range hist {
 		a := acts[ai]
 		switch a.kind {
@@ -287,6 +359,39 @@ func tagsOf(name string, acts []action, hist []int) []string {
 			set["reopen"] = true
 		case "crashsave", "crashmeta", "crashstate":
 			set["crash"] = true
+		}
+		switch a.kind {
+		case "meta", "crashmeta":
+			prev, written := metaLen[a.key]
+			if len(a.val) == 0 {
+				set["meta-empty-value-written"] = true
+				if a.val == nil {
+					set["meta-nil-value-written"] = true
+				}
+				if !written {
+					set["meta-first-write-of-key-is-empty"] = true
+				} else if prev > 0 {
+					set["meta-empty-overwrites-non-empty"] = true
+				}
+			} else if written && prev == 0 {
+				set["meta-non-empty-overwrites-empty"] = true
+			}
+			metaLen[a.key] = len(a.val)
+		case "state", "crashstate":
+			switch a.v {
+			case 0:
+				set["state-all-fields-zero"] = true
+			case 3:
+				set["state-genesis-like"] = true
+			}
+		case "height":
+			if a.h == 0 {
+				set["set-height-0"] = true
+			}
+		case "save", "crashsave":
+			if a.h == 0 {
+				set["block-at-height-0"] = true
+			}
 		}
 		if a.kind != "save" && a.kind != "crashsave" {
 			continue
@@ -326,8 +431,23 @@ func tagsOf(name string, acts []action, hist []int) []string {
 	return out
 }
 
+// mkState: 1, 2 = two states with every field set; 0 = the zero State; 3 = genesis-like (chain id and initial height
+// only: last block height 0, zero time, DA height 0, no hashes, zero version).
 func mkState(v int) types.State {
-	return types.State{ChainID: "c14", InitialHeight: 1, LastBlockHeight: uint64(v), LastBlockTime: time.Unix(0, int64(1000+v)).UTC(), AppHash: []byte{byte(v)}, DAHeight: uint64(10 * v)}
+	switch v {
+	case 0:
+		return types.State{}
+	case 3:
+		return types.State{ChainID: "c14", InitialHeight: 1}
+	}
+	return types.State{Version: types.Version{Block: 1, App: uint64(v)}, ChainID: "c14", InitialHeight: 1, LastBlockHeight: uint64(v),
+		LastBlockTime: time.Unix(0, int64(1000+v)).UTC(), AppHash: []byte{byte(v)}, DAHeight: uint64(10 * v), LastResultsHash: types.Hash{0xaa, byte(v)}}
+}
+
+// every field of a state (nil and empty byte strings are not told apart)
+func renderState(st *types.State) string {
+	return fmt.Sprintf("state=%d.%d/%s/%d/%d/%d.%d/%x/%d/%x|", st.Version.Block, st.Version.App, st.ChainID, st.InitialHeight, st.LastBlockHeight,
+		st.LastBlockTime.Unix(), st.LastBlockTime.Nanosecond(), st.AppHash, st.DAHeight, []byte(st.LastResultsHash))
 }
 
 // model is the boring reference: plain maps.
@@ -378,11 +498,11 @@ func (m *model) apply(a action) {
 }
 
 // observe reads everything through the public interface and renders it canonically.
-func observe(ctx context.Context, s store.Store, maxH uint64, metaKeys []string) string {
+func observe(ctx context.Context, s store.Store, minH, maxH uint64, metaKeys []string) string {
 	var sb strings.Builder
 	h, err := s.Height(ctx)
 	fmt.Fprintf(&sb, "height=%d,%v|", h, err != nil)
-	for i := uint64(1); i <= maxH; i++ {
+	for i := minH; i <= maxH; i++ {
 		hd, d, err := s.GetBlockData(ctx, i)
 		if err != nil {
 			fmt.Fprintf(&sb, "b%d=none|", i)
@@ -409,9 +529,10 @@ func observe(ctx context.Context, s store.Store, maxH uint64, metaKeys []string)
 	if err != nil {
 		sb.WriteString("state=none|")
 	} else {
-		fmt.Fprintf(&sb, "state=%d/%d/%x/%d|", st.LastBlockHeight, st.LastBlockTime.UnixNano(), st.AppHash, st.DAHeight)
+		sb.WriteString(renderState(&st))
 	}
 	for _, k := range metaKeys {
+		// a successful read of an empty value renders as "m[k]=|", a failed read as "m[k]=none|"
 		v, err := s.GetMetadata(ctx, k)
 		if err != nil {
 			fmt.Fprintf(&sb, "m[%s]=none|", k)
@@ -422,10 +543,10 @@ func observe(ctx context.Context, s store.Store, maxH uint64, metaKeys []string)
 	return sb.String()
 }
 
-func (m *model) expect(maxH uint64, metaKeys []string) string {
+func (m *model) expect(minH, maxH uint64, metaKeys []string) string {
 	var sb strings.Builder
 	fmt.Fprintf(&sb, "height=%d,false|", m.height)
-	for i := uint64(1); i <= maxH; i++ {
+	for i := minH; i <= maxH; i++ {
 		b, ok := m.blocks[i]
 		if !ok {
 			fmt.Fprintf(&sb, "b%d=none|h%d=none|s%d=none|", i, i, i)
@@ -439,8 +560,7 @@ func (m *model) expect(maxH uint64, metaKeys []string) string {
 	if m.state == nil {
 		sb.WriteString("state=none|")
 	} else {
-		st := m.state
-		fmt.Fprintf(&sb, "state=%d/%d/%x/%d|", st.LastBlockHeight, st.LastBlockTime.UnixNano(), st.AppHash, st.DAHeight)
+		sb.WriteString(renderState(m.state))
 	}
 	for _, k := range metaKeys {
 		v, ok := m.meta[k]
@@ -491,10 +611,51 @@ type result struct {
 	nWrites int
 }
 
-func runHistory(acts []action, hist []int, maxH uint64, metaKeys []string) result {
+func runHistory(sp *search, hist []int) (res result) {
+	acts, minH, maxH, metaKeys := sp.acts, sp.minH, sp.maxH, sp.metaKeys
 	ctx := context.Background()
-	kv := world.NewKV(nil)
-	s := store.New(kv)
+	var kv *world.KV // the logging double (nil when the history runs on real badger)
+	var s store.Store
+	var reopen func() error
+	if sp.badger {
+		dir, err := os.MkdirTemp("", "c14-badger-")
+		if err != nil {
+			return result{clause: "engine", msg: err.Error()}
+		}
+		var db ds.Batching
+		defer func() {
+			if db != nil {
+				_ = db.Close()
+			}
+			_ = os.RemoveAll(dir)
+		}()
+		reopen = func() error {
+			if db != nil {
+				if err := s.Close(); err != nil {
+					return err
+				}
+				db = nil
+			}
+			d, err := store.NewDefaultKVStore(dir, "db", "c14")
+			if err != nil {
+				return err
+			}
+			db = d
+			s = store.New(db)
+			return nil
+		}
+		if err := reopen(); err != nil {
+			return result{clause: "engine", msg: "cannot open badger: " + err.Error()}
+		}
+	} else {
+		kv = world.NewKV(nil)
+		s = store.New(kv)
+		reopen = func() error {
+			kv = world.NewKV(kv.Image())
+			s = store.New(kv)
+			return nil
+		}
+	}
 	m := newModel()
 	var trace []string
 	memState := ""
@@ -527,9 +688,13 @@ func runHistory(acts []action, hist []int, maxH uint64, metaKeys []string) resul
 			}
 			m.apply(a)
 		case "reopen":
-			kv = world.NewKV(kv.Image())
-			s = store.New(kv)
+			if err := reopen(); err != nil {
+				return result{clause: "op-error", msg: "reopen: " + err.Error(), trace: trace}
+			}
 		case "crashsave", "crashmeta", "crashstate":
+			if kv == nil {
+				return result{clause: "engine", msg: "crash actions need the logging double", trace: trace}
+			}
 			base := kv.NumWrites()
 			fired := false
 			kv.OnWrite = func(idx int, w world.Write) bool {
@@ -564,10 +729,10 @@ func runHistory(acts []action, hist []int, maxH uint64, metaKeys []string) resul
 		if !last {
 			if crashed {
 				// after a crash the op is either fully applied or not at all; settle the model on what is observed
-				got := observe(ctx, s, maxH, metaKeys)
+				got := observe(ctx, s, minH, maxH, metaKeys)
 				nm := old.clone()
 				nm.apply(a)
-				if got == nm.expect(maxH, metaKeys) {
+				if got == nm.expect(minH, maxH, metaKeys) {
 					m = nm
 				} else {
 					m = old
@@ -577,19 +742,19 @@ func runHistory(acts []action, hist []int, maxH uint64, metaKeys []string) resul
 		}
 		// the in-memory part of the state key is taken BEFORE the getters run (a getter may refresh cached state)
 		memState = store.VerifMemState(s)
-		got := observe(ctx, s, maxH, metaKeys)
+		got := observe(ctx, s, minH, maxH, metaKeys)
 		if crashed {
 			nm := old.clone()
 			nm.apply(a)
 			switch got {
-			case old.expect(maxH, metaKeys):
+			case old.expect(minH, maxH, metaKeys):
 				m = old
-			case nm.expect(maxH, metaKeys):
+			case nm.expect(minH, maxH, metaKeys):
 				m = nm
 			default:
-				return result{clause: "crash-atomicity", msg: fmt.Sprintf("after a crash inside %s the store shows neither the old nor the new contents:\n got  %s\n old  %s\n new  %s", a, got, old.expect(maxH, metaKeys), nm.expect(maxH, metaKeys)), trace: trace}
+				return result{clause: "crash-atomicity", msg: fmt.Sprintf("after a crash inside %s the store shows neither the old nor the new contents:\n got  %s\n old  %s\n new  %s", a, got, old.expect(minH, maxH, metaKeys), nm.expect(minH, maxH, metaKeys)), trace: trace}
 			}
-		} else if want := m.expect(maxH, metaKeys); got != want {
+		} else if want := m.expect(minH, maxH, metaKeys); got != want {
 			cl := "read-your-writes"
 			if a.kind == "reopen" {
 				cl = "durability"
@@ -602,6 +767,9 @@ func runHistory(acts []action, hist []int, maxH uint64, metaKeys []string) resul
 	}
 	// the state key is the durable image plus whatever the store object keeps in memory (nothing, today)
 	// (hashed: millions of histories are held per level, the image itself is a few kilobytes of hex)
+	if kv == nil {
+		return result{trace: trace} // badger histories are enumerated without merging
+	}
 	sum := sha256.Sum256([]byte("img:" + kv.Canon() + "|mem:" + memState))
 	return result{key: hex.EncodeToString(sum[:16]), trace: trace, nWrites: kv.NumWrites()}
 }
@@ -610,10 +778,12 @@ func runHistory(acts []action, hist []int, maxH uint64, metaKeys []string) resul
 type search struct {
 	name     string
 	acts     []action
+	minH     uint64 // getters are called on the heights minH..maxH
 	maxH     uint64
 	metaKeys []string
 	depth    int
 	cfg      map[string]any // how the alphabet was put together (goes into the evidence)
+	badger   bool           // run on the real on-disk badger datastore, every history up to depth (no merging, no crash actions)
 }
 
 func relSearch(name string, depth int, full, axis, crash []uint64, crashAxisOnly bool) search {
@@ -621,7 +791,7 @@ func relSearch(name string, depth int, full, axis, crash []uint64, crashAxisOnly
 	if crashAxisOnly {
 		crashOn = "the signature-axis shapes"
 	}
-	return search{name, relAlphabet(full, axis, crash, crashAxisOnly), 2, []string{"d"}, depth, map[string]any{
+	return search{name: name, acts: relAlphabet(full, axis, crash, crashAxisOnly), minH: 1, maxH: 2, metaKeys: []string{"d"}, depth: depth, cfg: map[string]any{
 		"heights_with_all_shapes": full, "heights_with_signature_axis_shapes_only": axis, "heights_with_crash_in_save": crash, "crash_in_save_applies_to": crashOn}}
 }
 
@@ -637,7 +807,8 @@ func TestCheck(t *testing.T) {
 	metaKeys := vf.Pick(r, []string{"d", "last-submitted-header-height", "rhb/1/h"},
 		[]string{"d", "l", "last-submitted-header-height", "last-submitted-data-height", "rhb/1/h", "rhb/1/d"})
 	searches := []search{
-		{"base", alphabet(maxH, metaKeys), maxH, metaKeys, vf.Pick(r, 5, 6), map[string]any{"heights": maxH, "metadata_keys": metaKeys}},
+		{name: "base", acts: alphabet(maxH, metaKeys), minH: 1, maxH: maxH, metaKeys: metaKeys, depth: vf.Pick(r, 5, 6),
+			cfg: map[string]any{"heights": maxH, "metadata_keys": metaKeys, "metadata_values": []string{"01..", "02..", "empty slice", "nil"}}},
 	}
 	if !r.Thorough() {
 		// every shape on height 1, the signature axis on height 2, crashes inside the signature-axis saves of height 1
@@ -648,6 +819,20 @@ func TestCheck(t *testing.T) {
 		// every shape on height 1 with a crash inside every one of them, the signature axis on height 2
 		searches = append(searches, relSearch("relations-crash", 3, []uint64{1}, []uint64{2}, []uint64{1}, false))
 	}
+	// the value dimension of the single-record writes, on all six key shapes of the node in both tiers
+	nodeKeys := []string{"d", "l", "last-submitted-header-height", "last-submitted-data-height", "rhb/1/h", "rhb/1/d"}
+	valCfg := func(crash bool) map[string]any {
+		c := map[string]any{"metadata_keys": nodeKeys, "metadata_values": []string{"01..", "02..", "empty slice", "nil"},
+			"states": []string{"all fields zero", "full 1", "full 2", "genesis-like (chain id and initial height only)"},
+			"set_height": []uint64{0, 1}, "block_heights": []uint64{0, 1}, "block_shapes": []string{shapeFull.String(), shapeEmpty.String()}}
+		if crash {
+			c["crash_before_write_of"] = "each metadata value under key l; the zero and the genesis-like state; both block shapes at height 0"
+		}
+		return c
+	}
+	searches = append(searches,
+		search{name: "values", acts: valuesAlphabet(nodeKeys, "l", true), minH: 0, maxH: 1, metaKeys: nodeKeys, depth: vf.Pick(r, 3, 4), cfg: valCfg(true)},
+		search{name: "values-badger", acts: valuesAlphabet(nodeKeys, "l", false), minH: 0, maxH: 1, metaKeys: nodeKeys, depth: vf.Pick(r, 2, 3), cfg: valCfg(false), badger: true})
 	r.Assume = []string{
 		"datastore contract: a single Put/Delete and one Batch.Commit are atomic and durable (go-datastore/badger), modelled by the logging KV double",
 		"by-hash reads of a superseded header are unspecified",
@@ -669,7 +854,10 @@ func TestCheck(t *testing.T) {
 				continue
 			}
 			found = true
-			if res := runHistory(sp.acts, ref.Hist, sp.maxH, sp.metaKeys); res.clause != "" {
+			res := runHistory(&sp, ref.Hist)
+			if res.clause == "engine" {
+				r.EngineError(res.msg)
+			} else if res.clause != "" {
 				r.Report(vf.Violation{Clause: res.clause, Tags: tagsOf(sp.name, sp.acts, ref.Hist), Msg: res.msg + "\n history: " + strings.Join(res.trace, " ; "), History: ref})
 			}
 		}
@@ -687,10 +875,25 @@ func TestCheck(t *testing.T) {
 	for _, sp := range searches {
 		sp := sp
 		var mu sync.Mutex
-		st := explore.BFS(explore.BFSConfig{Depth: sp.depth, Actions: len(sp.acts), Deadline: vf.Pick(r, 5*time.Minute, 20*time.Minute)}, func(hist []int) explore.Step {
-			res := runHistory(sp.acts, hist, sp.maxH, sp.metaKeys)
+		workers := 0
+		if sp.badger {
+			workers = 8 // an open badger instance holds tens of megabytes
+		}
+		st := explore.BFS(explore.BFSConfig{Depth: sp.depth, Actions: len(sp.acts), Workers: workers, Deadline: vf.Pick(r, 5*time.Minute, 20*time.Minute)}, func(hist []int) explore.Step {
+			res := runHistory(&sp, hist)
 			if res.prune {
 				return explore.Step{Prune: true}
+			}
+			if res.clause == "engine" {
+				r.EngineError(res.msg)
+				return explore.Step{Prune: true}
+			}
+			if sp.badger && res.clause == "" {
+				// no merging on the real datastore: every history is its own state
+				if len(hist) == sp.depth && hist[0]%5 == 2 && hist[len(hist)-1]%7 == 3 {
+					r.Sample("on badger: " + strings.Join(res.trace, " ; "))
+				}
+				return explore.Step{Key: fmt.Sprint(hist)}
 			}
 			if res.clause != "" {
 				r.Report(vf.Violation{Clause: res.clause, Tags: tagsOf(sp.name, sp.acts, hist), Msg: res.msg + "\n history: " + strings.Join(res.trace, " ; "), Cost: len(hist),
@@ -730,7 +933,8 @@ func TestCheck(t *testing.T) {
 			}
 		}
 		perSearch[sp.name] = map[string]any{"depth": st.DepthDone, "alphabet": len(sp.acts), "save_actions": nSave, "crash_in_save_actions": nCrash,
-			"heights_read": sp.maxH, "states": st.States, "transitions": st.Transitions, "states_per_level": st.PerLevel, "fixpoint": fix, "alphabet_config": sp.cfg}
+			"heights_read": []uint64{sp.minH, sp.maxH}, "backend": map[bool]string{false: "logging KV double", true: "real badger4 datastore on disk (store.NewDefaultKVStore), reopen = Close + open"}[sp.badger],
+			"merged_by_state": !sp.badger, "states": st.States, "transitions": st.Transitions, "states_per_level": st.PerLevel, "fixpoint": fix, "alphabet_config": sp.cfg}
 	}
 	sort.Strings(relSamples)
 	r.Finish(vf.Coverage{
